@@ -3,6 +3,7 @@ C19  Pair selection yields valid, distinct needle offsets for every ranker.
 -/
 import MemchrModel.Proofs.Pair
 import MemchrModel.Proofs.PairFallback
+import MemchrModel.Proofs.PairImpure
 
 namespace Memchr.Props.C19
 
@@ -24,6 +25,29 @@ theorem with_ranker (needle : Slice) (rank : UInt8 → UInt8) (c : Ctr) :
       c'.steps ≤ c.steps + min needle.len 255 ∧ c'.loads = c.loads :=
   Pair.withRanker_correct needle rank c
 
+/-- The same for rankers that are NOT functions of the byte: `HeuristicFrequencyRank::rank` takes
+`&self`, so an implementation may have interior state (a call counter in a `Cell`, a `RefCell`,
+an atomic, ...) and answer differently each time it is asked about the same byte.  Such a
+ranker is an arbitrary state type `σ`, transition `rank : σ → u8 → u8 × σ` and initial state
+`s0`; the model `Pair.withRankerS` threads the state through the `rank` calls in the order the
+Rust evaluates them.  For EVERY needle and EVERY such ranker the selection returns normally,
+`None` exactly below 2 bytes, otherwise two different offsets inside the needle, both at most
+254, in at most `min(needle.len(), 255)` steps. -/
+theorem with_ranker_impure {σ : Type} (needle : Slice) (rank : σ → UInt8 → UInt8 × σ) (s0 : σ)
+    (c : Ctr) :
+    ∃ r s' c', Pair.withRankerS needle rank s0 c = .ok (r, s') c' ∧
+      (r = none ↔ needle.len < 2) ∧
+      (∀ p, r = some p → p.ValidFor needle ∧ p.index1.toNat ≤ 254 ∧ p.index2.toNat ≤ 254) ∧
+      c'.steps ≤ c.steps + min needle.len 255 ∧ c'.loads = c.loads :=
+  Pair.withRankerS_correct needle rank s0 c
+
+/-- A pure ranker is the special case `σ = Unit`: the stateful model then coincides with
+`Pair.withRanker` (same fault, or same answer and counter). -/
+theorem with_ranker_impure_extends (needle : Slice) (f : UInt8 → UInt8) (c : Ctr) :
+    Pair.withRankerS needle (fun _ b => (f b, ())) () c =
+      ((fun r => (r, ())) <$> Pair.withRanker needle f) c :=
+  Pair.withRankerS_pure_map needle f c
+
 /-- `Pair::with_indices` accepts exactly the pairs of distinct in-range offsets and reports
 the pair it was given. -/
 theorem with_indices (needle : Slice) (i1 i2 : UInt8) (p : Pair) :
@@ -41,5 +65,7 @@ end Memchr.Props.C19
 
 #print axioms Memchr.Props.C19.scan_window
 #print axioms Memchr.Props.C19.with_ranker
+#print axioms Memchr.Props.C19.with_ranker_impure
+#print axioms Memchr.Props.C19.with_ranker_impure_extends
 #print axioms Memchr.Props.C19.with_indices
 #print axioms Memchr.Props.C19.fallback_reports_pair
